@@ -16,6 +16,8 @@ THEOREMS = CT.THEOREMS_C08 + [
     ('EAO.Properties.C20', 'EAO.C20.order_outside_inert', 'an order with no step in the horizon has zero cost, no mapping row, no restriction and occurs in no nodal row'),
     ('EAO.Properties.C19', 'EAO.C19.restricted_is_filter', 'the asset grid is exactly the sub-list of grid points in [start, end)'),
 ] + ST_.THEOREMS_C08_STORAGE + CH_.THEOREMS_C08 + SC_.THEOREMS_C08_SCALED
+from ..comp import linked as _LK
+THEOREMS = THEOREMS + [t for t in _LK.THEOREMS_LINKED if t[1].split('.')[-1] in ['linked_window', 'linked_wf', 'linked_ok', 'late_start_index_error']]
 PARTIAL = ['window theorems (every mapping row inside the asset\'s own grid, zero read-out outside it, empty window inert) are proved builder by builder: contract / transport / multi-commodity / order book, Storage (all options), CHP / Plant / min-load CHP / ramp profiles, and for the wrappers ScaledAsset and StructuredAsset relative to what they wrap; LinkedAsset is not modelled; that the window of a StructuredAsset reaches every wrapped asset (also the order book, which has no start/end parameter of its own) is not a theorem but searched for failing inputs by stream swin against the window applied by hand; that the start/end of a ScaledAsset reach its base asset is likewise searched by the oracles (top-level scaled assets with own windows in stream meta, wrapped ones in stream swin), not proved; the metamorphic statement (an asset outside the horizon changes nothing ELSE) follows from these plus the composition theorems of C09 and is searched for failing inputs by the oracle; '
            'that the part of the horizon outside every window changes nothing (time blocks of a storage, run times of a plant, coarse steps and take periods are counted from the asset\'s own window, not from the horizon) is not a theorem but searched by stream hext and the horizon cut of stream meta; '
            'take_prorated is a theorem about the model of the builders (tied by the correspondence cases, which include two-variable contracts); on the real code the prorated right-hand side is checked by the oracles of streams oracle (one variable per step) and take (one and two)']
@@ -101,6 +103,11 @@ def scenarios(seed, tier):
     for i in range(n // 2):
         # take periods placed anywhere relative to horizon and window, on contracts with one or two variables per step
         yield 'take%d' % i, {'stream': 'take', 'case': G8.gen_take_case(random.Random(rnd.getrandbits(48)), tmax=10 if tier == 'quick' else 16)}
+    # LinkedAsset (comp/linked.py): the model of the linking loop against the real set-up, on captured and on generated structured problems
+    from ..comp import linked as LK
+    _rl = random.Random(seed * 15485863 + 81)
+    for i in range(60 if tier == 'quick' else 400):
+        yield 'lk%d' % i, {'_stream': 'linked', 'case': LK.gen_case(_rl.__class__(_rl.getrandbits(48)), tmax=6)}
 
 
 def outside_asset(rnd, scn):
@@ -533,6 +540,11 @@ def run_swin(scn, r):
 
 
 def run_case(c, drv):
+    if isinstance(c, dict) and c.get('_stream') == 'linked':
+        from ..comp import linked as LK
+        r = LK.run_case(c['case'], drv, with_oracle=False)      # the tie of the linked model; its documented-behaviour oracle states no property of this list
+        r['features'] = ['stream:linked'] + list(r.get('features', []))
+        return r
     r = {'evaluated': 1, 'nontrivial': False, 'features': ['stream:' + c['stream']], 'disagreements': [], 'violations': []}
     if c['stream'] == 'build':
         rec = CT.run_case(c['case'], drv)
